@@ -15,10 +15,8 @@ func init() { register("C09", checkC09) }
 // Key: function + "|" + type of the ranged map. A loop that is not listed is an unreviewed order source.
 var mapRangeTable = map[string]string{
 	"task.(*Compiler).getVariables|map[string]string":                     "special variables: keys are unique and values independent of each other; every later phase overrides by key",
-	"internal/deepcopy.Map|map[K]V":                                       "result is itself a Go map",
 	"internal/env.GetFromVars|map[string]any":                             "builds the process environment list: names are unique, the order of environment entries is immaterial",
 	"internal/experiments.readDotEnv|map[string]string":                   "setenv per key: names unique",
-	"internal/fingerprint.collectKeys|map[string]bool":                    "keys are sorted before being returned",
 	"taskfile/ast.(*TaskfileGraph).Merge$1|map[string]graph.Edge[string]": "",
 	"taskfile/ast.(*TaskfileGraph).Merge|map[string]graph.Edge[string]":   "each iteration merges the included file into a DISTINCT parent, and merging never writes to the included file (rule merge-sources-read-only)",
 	"task.(*Executor).compiledTask|map[string]string":                     "task dotenv: first-wins per key across files; keys within one file are unique",
@@ -95,6 +93,10 @@ func c09MapRanges(c *Check, a *Anchors) {
 			c.Fn(fb)
 			k := fnDisplay(fb) + "|" + types.TypeString(tv.Type, shortQual)
 			reason := mapRangeTable[k]
+			if shape := orderInsensitiveShape(info, fb, r); shape != "" {
+				k = "shape:" + strings.SplitN(shape, ":", 2)[0] + "@" + strings.TrimPrefix(fb.Pkg.PkgPath, Mod+"/")
+				reason = shape
+			}
 			key := ordinal(ord, k)
 			if reason != "" && strings.Contains(reason, "DISTINCT") {
 				// the reason given for this loop is a claim about the loop body: decide it
@@ -431,4 +433,117 @@ func distinctTargets(info *types.Info, r *ast.RangeStmt) string {
 		return true
 	})
 	return bad
+}
+
+// orderInsensitiveShape recognises, from the loop alone, the two shapes of a map range whose result cannot depend on the
+// iteration order: a collector that only appends to one local slice which is sorted right after the loop, and a loop that
+// only stores into another map under the ranged key.
+func orderInsensitiveShape(info *types.Info, fb *FuncBody, r *ast.RangeStmt) string {
+	keyVar := (*types.Var)(nil)
+	if r.Key != nil {
+		keyVar = varOf(info, r.Key)
+	}
+	var appendTo *types.Var
+	onlyAppends, onlyStores := true, true
+	nStmt := 0
+	var walk func(list []ast.Stmt)
+	walk = func(list []ast.Stmt) {
+		for _, st := range list {
+			switch x := st.(type) {
+			case *ast.IfStmt:
+				if x.Init != nil {
+					if as, ok := x.Init.(*ast.AssignStmt); !ok || as.Tok != token.DEFINE || hasCall(info, as) {
+						onlyAppends, onlyStores = false, false
+					}
+				}
+				if hasCall(info, x.Cond) {
+					onlyAppends, onlyStores = false, false
+				}
+				walk(x.Body.List)
+				switch e := x.Else.(type) {
+				case *ast.BlockStmt:
+					walk(e.List)
+				case *ast.IfStmt:
+					walk([]ast.Stmt{e})
+				}
+			case *ast.AssignStmt:
+				nStmt++
+				if len(x.Lhs) != 1 || len(x.Rhs) != 1 {
+					onlyAppends, onlyStores = false, false
+					continue
+				}
+				// x = append(x, ...)
+				isApp := false
+				if call, ok := ast.Unparen(x.Rhs[0]).(*ast.CallExpr); ok && isBuiltin(info, call, "append") && len(call.Args) >= 1 {
+					if v := varOf(info, x.Lhs[0]); v != nil && varOf(info, call.Args[0]) == v && (appendTo == nil || appendTo == v) && !v.IsField() && v.Parent() != v.Pkg().Scope() {
+						appendTo, isApp = v, true
+					}
+				}
+				if !isApp {
+					onlyAppends = false
+				}
+				// dst[key] = ...
+				isStore := false
+				if ix, ok := ast.Unparen(x.Lhs[0]).(*ast.IndexExpr); ok && keyVar != nil && varOf(info, ix.Index) == keyVar {
+					if tv, ok := info.Types[ix.X]; ok {
+						if _, isMap := tv.Type.Underlying().(*types.Map); isMap && varOf(info, ix.X) != nil && varOf(info, ix.X) != varOf(info, r.X) {
+							isStore = true
+						}
+					}
+				}
+				if !isStore {
+					onlyStores = false
+				}
+			default:
+				onlyAppends, onlyStores = false, false
+			}
+		}
+	}
+	walk(r.Body.List)
+	if nStmt == 0 {
+		return ""
+	}
+	if onlyStores {
+		return "map-to-map: the loop only stores into another Go map under the ranged key (the result is itself unordered)"
+	}
+	if onlyAppends && appendTo != nil {
+		// the next use of the slice after the loop is a sort
+		var firstUse ast.Node
+		sorted := false
+		inspectBody(fb.Body, func(nd ast.Node) bool {
+			if nd.Pos() <= r.End() || firstUse != nil {
+				return true
+			}
+			switch x := nd.(type) {
+			case *ast.CallExpr:
+				if fn, ok := callee(info, x).(*types.Func); ok && fn.Pkg() != nil && (fn.Pkg().Path() == "sort" || fn.Pkg().Path() == "slices") && (strings.HasPrefix(fn.Name(), "Sort") || fn.Name() == "Strings" || fn.Name() == "Slice" || fn.Name() == "SliceStable") && len(x.Args) >= 1 && varOf(info, x.Args[0]) == appendTo {
+					firstUse, sorted = x, true
+					return false
+				}
+			case *ast.Ident:
+				if info.Uses[x] == appendTo {
+					firstUse = x
+				}
+			}
+			return true
+		})
+		if sorted {
+			return "sorted-collector: the loop only appends to a local slice that is sorted right after the loop"
+		}
+	}
+	return ""
+}
+
+func hasCall(info *types.Info, n ast.Node) bool {
+	found := false
+	ast.Inspect(n, func(m ast.Node) bool {
+		if call, ok := m.(*ast.CallExpr); ok {
+			if tv, ok := info.Types[call.Fun]; ok && tv.IsType() {
+				return true // conversion
+			}
+			found = true
+		}
+		return !found
+	})
+	return found
 }
